@@ -277,7 +277,7 @@ class ConB:
 
 
 def h_history_contracts(c, pkg, length):
-    """contracts, contract interfaces and aliases: each position one of 11 operations"""
+    """contracts, contract interfaces and aliases: each position one of 12 operations"""
     F, P = pkg.functions, pkg.parsing
     log = []
     cons = {b'A': ConA(log), b'B': ConB(log)}
@@ -287,7 +287,7 @@ def h_history_contracts(c, pkg, length):
     base_ifaces = set(F._contract_interfaces)
     hist = []
     for k in range(length):
-        op = _choose(c, f'op{k}', 11)
+        op = _choose(c, f'op{k}', 12)
         if op == 10:
             r = outcome_of(F.add_contract, b'A', conA2)
             if r[0] == 'ok':
@@ -318,8 +318,10 @@ def h_history_contracts(c, pkg, length):
             ref_i.discard(name)
             hist.append(('remove_interface', name))
         else:
-            alias, target = (('ZZA', 'OP_TRUE'), ('ZZB', 'OP_FALSE'))[op - 8]
-            r = outcome_of(F.add_alias, alias, target)
+            # (aliases are case-insensitive: a lower-case spelling names the same alias, also when it asks for another op)
+            spelt, target = (('ZZA', 'OP_TRUE'), ('zzb', 'OP_FALSE'), ('zza', 'OP_FALSE'))[op - 8 if op < 10 else 2]
+            alias = spelt.upper()
+            r = outcome_of(F.add_alias, spelt, target)
             if alias in ref_a:
                 c.check('alias_already_in_use_is_rejected', r[0] == 'raise' and exc_name(r[1]) == 'ValueError')
             else:
